@@ -223,7 +223,7 @@ def check_queue(case, M):
     except Exception as e:  # noqa
         err = type(e).__name__
         fail("oracle", "the queue raises inside its usage protocol", err)
-    ans = M.ask([Sym("cd.queue"), maxi, k, script])
+    ans = M.ask([Sym("cd.queue"), maxi, k, script, C.impl_flags()[1]])
     rf, rr = ans
     if err is None:
         if rf[0] != "ok":
